@@ -32,6 +32,10 @@ type gapInput struct {
 	Section string `json:"section"`
 	Kind    string `json:"kind"` // statefile | flicker | drain | regrow | samename
 	Control bool   `json:"control,omitempty"`
+	// emptied: how many syncs see the file empty before the new content is written; short: the new content is shorter
+	// than the old offset
+	EmptyScans int  `json:"empty_scans,omitempty"`
+	Short      bool `json:"short,omitempty"`
 }
 
 // gsess is one scanner session with a consumer that confirms everything, or only the first holdAfter events
@@ -411,6 +415,16 @@ var (
 	gapQueue []gapInput
 )
 
+// the section the schedules report their distribution to (nil in a replay)
+var gapsSection *vh.Section
+
+func gapSec() *vh.Section {
+	if gapsSection == nil {
+		gapsSection = res.Section("gaps", "replay", "replay of one recorded schedule")
+	}
+	return gapsSection
+}
+
 func runGap(in gapInput) {
 	in.Section = "gaps"
 	switch in.Kind {
@@ -422,6 +436,10 @@ func runGap(in gapInput) {
 		runGapDrain(in)
 	case "regrow":
 		runGapRegrow(in)
+	case "emptied":
+		runGapEmptied(in)
+	case "failsave":
+		runGapFailSave(in)
 	default:
 		res.Note("gaps: unknown kind %q", in.Kind)
 	}
@@ -433,10 +451,12 @@ const gapsRule = "deterministic schedules on the real scanner.Scanner (sync ever
 	"flicker — the shipped file is renamed away for two scans and back: nothing may be delivered again; drain — the consumer holds the second of three one-line events, the file is renamed away and re-created, " +
 	"two scans later a graceful stop and a restart with a confirming consumer: the two remaining lines of the rotated-out file must still arrive; regrow — the shipped file is truncated and re-written in place " +
 	"with more bytes than the old offset before the next scan: the new content must arrive from its first byte. Each with its control schedule (complete state file; no rename; no rotation; new content shorter than the old offset). " +
+	"emptied — a shipped file is truncated in place, 1 or 2 hand-made syncs (export NewVerifStepScanner) see it empty, after the old worker has stopped new content (longer / shorter than the old offset) is written, two more syncs: what is confirmed after the truncation must be the new content from its first byte, once; failsave — state saved every second, the storage refuses the first save that holds the end of the confirmed bytes and works again, three quiet ticks, graceful stop: the storage must hold the end of the confirmed bytes, a restart delivers nothing. " +
 	"samename (a rotated name that still matches *.log) is only noted. The witnesses of the open findings come from the corpus. non-trivial = every schedule"
 
 func sectionGaps() {
 	sec := res.Section("gaps", "system-correspondence", gapsRule)
+	gapsSection = sec
 	gapMu.Lock()
 	ins := append([]gapInput{}, gapQueue...)
 	gapQueue = nil
@@ -445,6 +465,9 @@ func sectionGaps() {
 		ins = append(ins, gapInput{Kind: k, Control: true})
 	}
 	ins = append(ins, gapInput{Kind: "samename"})
+	ins = append(ins, gapInput{Kind: "emptied", EmptyScans: 1}, gapInput{Kind: "emptied", EmptyScans: 1, Short: true},
+		gapInput{Kind: "emptied", EmptyScans: 2}, gapInput{Kind: "emptied", Control: true},
+		gapInput{Kind: "failsave"}, gapInput{Kind: "failsave", Control: true})
 	var wg sync.WaitGroup
 	for _, in := range ins {
 		wg.Add(1)
@@ -472,6 +495,7 @@ func replayGaps(input json.RawMessage) {
 		return
 	}
 	sec := res.Section("gaps", "replay", "replay of one recorded schedule")
+	gapsSection = sec
 	runGap(in)
 	res.Eval(sec, digest(in))
 }
